@@ -201,7 +201,7 @@ fn deepest_kind(f: &Filter) -> &'static str {
 
 /// O1: generated ASTs rendered with random escaping choices.
 pub fn generated(ctx: &Ctx) -> Report {
-    let n = ctx.n(150_000, 20_000_000);
+    let n = ctx.n(3_000_000, 2_000_000_000);
     par_cases(ctx, "generated", n, ctx.secs(20, 500), |i, rng, rep| {
         let (d, w) = if ctx.tiny { (2, 2) } else { (rng.usize(6), 1 + rng.usize(4)) };
         let ast = fr::gen_filter(rng, d, w);
@@ -304,7 +304,7 @@ fn mutate(s: &mut Vec<u8>, rng: &mut Rng) {
 
 /// Random byte strings and single/double mutations of valid strings.
 pub fn mutated(ctx: &Ctx) -> Report {
-    let n = ctx.n(150_000, 20_000_000);
+    let n = ctx.n(3_000_000, 2_000_000_000);
     par_cases(ctx, "mutated", n, ctx.secs(20, 500), |i, rng, rep| {
         let s = if rng.chance(1, 4) {
             let l = rng.usize(24);
